@@ -105,32 +105,32 @@ def _p(clauses, mc, sim, profiles, pprops):
 
 
 PLAN = {
-    "C01": _p(["C01.a", "C01.b"], [("core", 9, 11), ("apps", 9, 11)], ["core", "time"],
+    "C01": _p(["C01.a", "C01.b"], [("core", 9, 12), ("apps", 8, 11)], ["core", "time"],
               ["mailbox", "apps", "time"], ["P01"]),
-    "C02": _p(["C02.a", "C02.b"], [("core", 9, 11), ("time", 10, 13)], ["core", "time"],
+    "C02": _p(["C02.a", "C02.b"], [("core", 9, 12), ("time", 8, 11)], ["core", "time"],
               ["fanout", "mailbox", "time"], ["P02"]),
-    "C03": _p(["C03.a", "C03.b", "C03.c", "C03.d"], [("core", 9, 11), ("apps", 9, 11)], ["core", "apps"],
+    "C03": _p(["C03.a", "C03.b", "C03.c", "C03.d"], [("core", 9, 12), ("apps", 8, 11)], ["core", "apps"],
               ["nameplate", "apps", "crowd"], ["P03"]),
-    "C05": _p(["C05.a", "C05.b", "C05.c", "C05.keep"], [("core", 9, 11)], ["core"],
+    "C05": _p(["C05.a", "C05.b", "C05.c", "C05.keep"], [("core", 9, 12)], ["core"],
               ["crowd", "mailbox"], ["P05"]),
-    "C07": _p(["C07.a", "C07.b", "C07.c", "C07.d", "C07.e"], [("core", 9, 11), ("apps", 9, 11)],
+    "C07": _p(["C07.a", "C07.b", "C07.c", "C07.d", "C07.e"], [("core", 9, 12), ("apps", 8, 11)],
               ["core", "apps"], ["nameplate", "apps", "crowd"], ["P07"]),
-    "C08": _p(["C08.a", "C08.b", "C08.c", "C08.d"], [("core", 9, 11)], ["core"],
+    "C08": _p(["C08.a", "C08.b", "C08.c", "C08.d"], [("core", 9, 12)], ["core"],
               ["mailbox", "nameplate"], ["P08"]),
-    "C04": _p(["C04.a", "C04.b", "C04.c"], [("alloc", 8, 10), ("allocnl", 8, 10)], ["core"],
+    "C04": _p(["C04.a", "C04.b", "C04.c"], [("alloc", 8, 11), ("allocnl", 8, 11)], ["core"],
               ["alloc", "nameplate"], ["P04"]),
-    "C09": _p(["C09.a", "C09.b"], [("crash", 8, 10), ("crashu", 8, 10)], ["crash", "crashu"],
+    "C09": _p(["C09.a", "C09.b"], [("crash", 8, 11), ("crashu", 7, 10)], ["crash", "crashu"],
               ["crash", "usage", "mailbox"], ["P09"]),
-    "C10": _p(["C10.a", "C10.b", "C10.c", "C13.c"], [("crash", 8, 10), ("crashu", 8, 10)], ["crash", "crashu"],
+    "C10": _p(["C10.a", "C10.b", "C10.c", "C13.c"], [("crash", 8, 11), ("crashu", 7, 10)], ["crash", "crashu"],
               ["crash"], ["P10", "P13"]),
-    "C12": _p(["C12.a", "C12.b"], [("time", 10, 13), ("time2", 9, 12)], ["time", "time2"],
+    "C12": _p(["C12.a", "C12.b"], [("time", 8, 11), ("time2", 7, 10)], ["time", "time2"],
               ["time", "fanout"], ["P12"]),
-    "C13": _p(["C13.a", "C13.b", "C13.c"], [("time", 10, 13), ("time2", 9, 12)], ["time", "time2"],
+    "C13": _p(["C13.a", "C13.b", "C13.c"], [("time", 8, 11), ("time2", 7, 10)], ["time", "time2"],
               ["time", "crowd", "mailbox"], ["P13"]),
-    "C15": _p(["C15.a", "C15.b", "C15.c"], [("usage", 9, 11), ("usage7", 9, 11)], ["usage", "usage7"],
+    "C15": _p(["C15.a", "C15.b", "C15.c"], [("usage", 7, 10), ("usage7", 7, 10)], ["usage", "usage7"],
               ["usage"], ["P15"]),
-    "C16": _p(["C16.a", "C16.b", "C16.c"], [("usage", 9, 11), ("usage7", 9, 11)], ["usage", "usage7"],
+    "C16": _p(["C16.a", "C16.b", "C16.c"], [("usage", 7, 10), ("usage7", 7, 10)], ["usage", "usage7"],
               ["usage"], ["P16"]),
-    "C17": _p(["C17.a", "C17.b", "C17.c", "C17.d", "C17.e", "C17.f"], [("proto", 7, 9), ("apps", 9, 11)],
+    "C17": _p(["C17.a", "C17.b", "C17.c", "C17.d", "C17.e", "C17.f"], [("proto", 7, 10), ("apps", 8, 11)],
               ["proto"], ["proto", "apps"], ["P17"]),
 }
